@@ -26,6 +26,10 @@ CHECKS = {
          "Generated-input/schedule search; accounting invariant compared against an independent holder model at every truly quiescent sample point and after the finish phase; exploration only.",
          "Trusted: harness/model.py holders(), FIFO accounting for asynchronous nodes, the definition of 'truly quiescent' in props/c05.py; latest's hold-after-delivery is a recorded known finding.",
          "DESIGN.md section 4 C05"),
+ "C10": ("Hypothesis-generated pipelines + schedules + metadata plans; per-node local oracle on the identity and order of metadata dicts (reference model for sync nodes, FIFO/membership rules for async nodes) and flat-list-of-dicts shape",
+         "Generated-input search; the metadata argument observed by a recording child of every node is compared, by object identity, with the documented function of the observed inputs' metadata. Exploration only.",
+         "Trusted: harness/model.py metadata rules (DESIGN Appendix A), arrival observation by instance-level update() wrappers.",
+         "DESIGN.md section 4 C10"),
 }
 NOT_YET = "check not built yet in this session (the property is decidable with this technique; see DESIGN.md section 4)"
 
